@@ -62,6 +62,12 @@ class Scenario:
             if kind == 'echo':
                 so = si
             self.methods[m] = {'in': si, 'out': so, 'kind': kind}
+        if idx % 9 == 5:
+            # one implementation is buggy: what it returns does not fit the signature it declares (a forgotten return, a
+            # text where a number is declared).  That value cannot travel, so nothing is said about WHAT the caller gets -
+            # only that its call completes (once), like every other call; calls beside it are unaffected
+            m = sorted(self.methods)[0]
+            self.methods[m] = {'in': self.methods[m]['in'], 'out': r.choice(['s', 'i', 'si', 'as', 'y']), 'kind': 'misfit'}
         # optionally a second exported interface re-using member names with other signatures: calls then name
         # the interface they mean
         self.iface2_name = self.iface_name + 'b'
@@ -194,6 +200,8 @@ class Run:
                 return vals[0]
             return tuple(vals)
         tok = args[0] if args and isinstance(args[0], str) else method
+        if kind == 'misfit':
+            return {'s': None, 'i': 'not a number', 'si': ('only one',), 'as': 7, 'y': 300}[spec['out']]
         if kind in ('value', 'echo'):
             return value()
         if kind == 'raise':
@@ -414,6 +422,9 @@ class Run:
                 continue
             kind, val = out.results[0]
             k = spec['kind']
+            if k == 'misfit':
+                ctx.count('calls_to_a_misfit_implementation_completed')
+                continue
             if k in ('value', 'echo', 'deferred'):
                 want_vals = call['args_norm'] if k == 'echo' else call['ret_norm']
                 want = convention(spec['out'], want_vals)
